@@ -747,7 +747,11 @@ pub fn check_pipe(ctx: &mut Ctx, p: &PipeParams, rep: &mut Report) {
     rep.count("pipe_class", &format!("{}|{}|{parity}|{ac}", p.variant, size_class(n)));
     let out = ctx.exec(&prog, &case, None);
     rep.count("outcome", &format!("{}[{ac}]:{}", p.variant, out.class()));
-    if no_panic(&out, procname, ac, &wit, rep) {
+    // at the top edge of the address space the three procedures share one mechanism (the adv_pipe
+    // loop), so they share one signature family there
+    let edge = ac == "ends-at-2^32" || ac == "crosses-2^32";
+    let signame = if edge { "mem::pipe_*" } else { procname };
+    if no_panic(&out, signame, ac, &wit, rep) {
         return;
     }
     if must_fail {
@@ -819,7 +823,7 @@ pub fn check_pipe(ctx: &mut Ctx, p: &PipeParams, rep: &mut Report) {
             }
         }
         Out::Err(k, e) => rep.violation(
-            format!("{procname}/fails/{ac}/{parity}"),
+            if edge { format!("{signame}/fails/{ac}") } else { format!("{procname}/fails/{ac}/{parity}") },
             format!("{procname} n={n} ptr={} (all addresses < 2^32) failed with {k}: {e}", p.ptr),
             wit,
         ),
@@ -1831,11 +1835,11 @@ const SHARDS: usize = 32;
 
 pub fn run(cfg: &Cfg) -> Report {
     let reps = cfg.n(3, 30);
-    let n_mem = cfg.n(1000, 12000);
-    let n_pipe = cfg.n(1000, 12000);
-    let n_smt_seq = cfg.n(32, 400);
+    let n_mem = cfg.n(1000, 16000);
+    let n_pipe = cfg.n(1000, 16000);
+    let n_smt_seq = cfg.n(32, 500);
     let smt_steps = 40;
-    let n_mmr_seq = cfg.n(28, 330);
+    let n_mmr_seq = cfg.n(28, 450);
     let n_util = cfg.n(40, 400);
     let thorough = cfg.tier == crate::report::Tier::Thorough;
     // MMRs with more than 16 peaks are expensive natively (2^17 hashes): separate jobs, started first
@@ -1854,7 +1858,8 @@ pub fn run(cfg: &Cfg) -> Report {
             let mut ctx = Ctx::new(rng_for(cfg.seed, "C18", 1000 + job as u64)).with_shared(shared.clone());
             ctx.side_monitor = false;
             ctx.sampling = false;
-            let add_pct = if big[job].count_ones() > 16 { 10 } else { 35 };
+            // >16 peaks: stay there until the single forced add (which merges all peaks)
+            let add_pct = if big[job].count_ones() > 16 { 0 } else { 35 };
             mmr_sequence(&mut ctx, big[job], if thorough { 24 } else { 10 }, add_pct, &mut rep);
             rep.count_n("cpu_ms_by_section", "mmr-big", t_job.elapsed().as_millis() as u64);
             return rep;
